@@ -180,6 +180,133 @@ func runC14(c *Ctx, r *Report) {
 	default:
 		r.Violate("R-C14.2", key, join.Body.Pos(), fmt.Sprintf("source log state is read through %d heads accessor calls and %d entries accessor calls: the two heads reads can observe different states (the merged head set then names entries that were never captured)", nHeads, nEntries))
 	}
+
+	// R-C14.6: "heads first, then entries" is a snapshot only while the source's index never shrinks
+	r.Doc("R-C14.6", "the source state a merge works from is one the source really had: either no operation ever replaces a live log's entry index by a smaller one, or a first-party source is read through one accessor that holds its lock across the heads read and the entries read")
+	entriesF, headsF := p.Field("", "IPFSLog", "Entries"), p.Field("", "IPFSLog", "heads")
+	shrink := ""
+	for _, fn := range p.Fns {
+		if fn.Pkg.PkgPath != p.Mod || fn.Orig != nil {
+			continue
+		}
+		walkNoLit(fn.Body, func(n ast.Node) bool {
+			as, ok := n.(*ast.AssignStmt)
+			if !ok {
+				return true
+			}
+			for _, l := range as.Lhs {
+				if v, _ := p.FieldSel(fn, l); v == entriesF && !nilInit(p, fn, as, l) {
+					shrink = fn.Name + " at " + p.Pos(as.Pos())
+				}
+			}
+			return true
+		})
+	}
+	// a snapshot accessor used on the type-asserted source
+	snapUsed := ""
+	asserted := map[types.Object]bool{}
+	walkNoLit(join.Body, func(n ast.Node) bool {
+		as, ok := n.(*ast.AssignStmt)
+		if !ok || len(as.Rhs) != 1 {
+			return true
+		}
+		ta, ok := ast.Unparen(as.Rhs[0]).(*ast.TypeAssertExpr)
+		if !ok || ta.Type == nil {
+			return true
+		}
+		if id, ok := ast.Unparen(ta.X).(*ast.Ident); !ok || p.ObjOf(join, id) != otherParam {
+			return true
+		}
+		if namedOf(p.TypeOf(join, ta.Type)) != p.Named("", "IPFSLog") {
+			return true
+		}
+		if id, ok := as.Lhs[0].(*ast.Ident); ok {
+			asserted[p.ObjOf(join, id)] = true
+		}
+		return true
+	})
+	// (looked up in the function as written: the helper-transparent view has the accessor inlined)
+	joinSrc := orig(join)
+	walkNoLit(joinSrc.Body, func(n ast.Node) bool {
+		as, ok := n.(*ast.AssignStmt)
+		if !ok || len(as.Rhs) != 1 {
+			return true
+		}
+		ta, ok := ast.Unparen(as.Rhs[0]).(*ast.TypeAssertExpr)
+		if !ok || ta.Type == nil {
+			return true
+		}
+		if id, ok := ast.Unparen(ta.X).(*ast.Ident); !ok || p.ObjOf(joinSrc, id) != paramObj(joinSrc, 0) {
+			return true
+		}
+		if namedOf(p.TypeOf(joinSrc, ta.Type)) != p.Named("", "IPFSLog") {
+			return true
+		}
+		if id, ok := as.Lhs[0].(*ast.Ident); ok {
+			asserted[p.ObjOf(joinSrc, id)] = true
+		}
+		return true
+	})
+	walkNoLit(joinSrc.Body, func(n ast.Node) bool {
+		call, ok := n.(*ast.CallExpr)
+		if !ok {
+			return true
+		}
+		se, ok := ast.Unparen(call.Fun).(*ast.SelectorExpr)
+		if !ok {
+			return true
+		}
+		id, ok := ast.Unparen(se.X).(*ast.Ident)
+		if !ok || !asserted[p.ObjOf(joinSrc, id)] {
+			return true
+		}
+		m := p.Callee(joinSrc, call)
+		mf := p.ByObj[m]
+		if mf == nil {
+			return true
+		}
+		// both fields loaded while the receiver's lock is held, in one critical section
+		lf := le.flows[orig(mf)]
+		if lf == nil {
+			return true
+		}
+		got := map[*types.Var]bool{}
+		sections := 0
+		lf.Visit(func(_ *cfgBlk, nd ast.Node, before Facts) {
+			held := false
+			for k := range before {
+				if strings.HasPrefix(k, "H|") && strings.Contains(k, "|IPFSLog.lock|") {
+					held = true
+				}
+			}
+			walkNoLit(nd, func(x ast.Node) bool {
+				if c2, ok := x.(*ast.CallExpr); ok {
+					if cf := p.Callee(mf, c2); cf != nil && cf.Pkg() != nil && cf.Pkg().Path() == "sync" && (cf.Name() == "RLock" || cf.Name() == "Lock") {
+						sections++
+					}
+				}
+				if sx, ok := x.(*ast.SelectorExpr); ok {
+					if v, _ := p.FieldSel(mf, sx); (v == entriesF || v == headsF) && held {
+						got[v] = true
+					}
+				}
+				return true
+			})
+		})
+		if got[entriesF] && got[headsF] && sections == 1 {
+			snapUsed = mf.Name + " at " + p.Pos(call.Pos())
+		}
+		return true
+	})
+	key6 := r.Key("R-C14.6", join, "source-snapshot", "")
+	switch {
+	case shrink == "":
+		r.Hold("R-C14.6", key6, join.Body.Pos(), true, "no operation replaces a live log's entry index: reading heads, then entries, yields a superset of the state at the heads read")
+	case snapUsed != "":
+		r.Hold("R-C14.6", key6, join.Body.Pos(), true, "the entry index can be replaced ("+shrink+"), and a first-party source is read through "+snapUsed+", which holds the source's lock across both reads")
+	default:
+		r.Violate("R-C14.6", key6, join.Body.Pos(), "the source's heads and entries are read in two critical sections of the source, but a live log's entry index can be replaced by a smaller one ("+shrink+", the size-bounded merge): a bounded merge into the source between the two reads makes the destination adopt a head whose entry it never received — a head of the result that is not an entry of the result")
+	}
 }
 
 // paramObj returns the i-th parameter object of a declared function.
